@@ -83,6 +83,9 @@ struct Limits {
     runtime_depth: u32,
     iterations: Option<u64>,
     size: Option<u64>,
+    /// every runtime model of the configuration in evaluation (depth-first) order: (limit ns, frequency, depth).
+    /// `runtime` above is the first of them, `iterations` / `size` the tightest of their kind.
+    runtimes: Vec<(u64, u64, u32)>,
 }
 
 fn parse_hms(s: &str) -> u64 {
@@ -96,11 +99,21 @@ fn parse_limits(t: &Value, out: &mut Limits) {
 fn parse_limits_at(t: &Value, out: &mut Limits, depth: u32) {
     match t["type"].as_str().unwrap_or("") {
         "query_runtime" => {
-            out.runtime = Some((parse_hms(t["limit"].as_str().unwrap_or("0:00:00")), t["frequency"].as_u64().unwrap_or(1)));
-            out.runtime_depth = depth;
+            let m = (parse_hms(t["limit"].as_str().unwrap_or("0:00:00")), t["frequency"].as_u64().unwrap_or(1));
+            if out.runtime.is_none() {
+                out.runtime = Some(m);
+                out.runtime_depth = depth;
+            }
+            out.runtimes.push((m.0, m.1, depth));
         }
-        "iterations" => out.iterations = Some(t["limit"].as_u64().unwrap_or(0)),
-        "solution_size" => out.size = Some(t["limit"].as_u64().unwrap_or(0)),
+        "iterations" => {
+            let l = t["limit"].as_u64().unwrap_or(0);
+            out.iterations = Some(out.iterations.map_or(l, |x| x.min(l)));
+        }
+        "solution_size" => {
+            let l = t["limit"].as_u64().unwrap_or(0);
+            out.size = Some(out.size.map_or(l, |x| x.min(l)));
+        }
         "combined" => {
             for m in t["models"].as_array().cloned().unwrap_or_default() {
                 parse_limits_at(&m, out, depth + 1);
@@ -142,8 +155,8 @@ fn gen(seed: u64, family: &str, tier: Tier) -> Case {
     let limit_s = *r.pick(&[0u64, 1, 1, 2, 60]);
     let freq = *r.pick(&[1u64, 1, 2, 3, 5, 8]);
     let runtime = json!({"type": "query_runtime", "limit": fmt_hms(limit_s * 1_000_000_000), "frequency": freq});
-    let iters = json!({"type": "iterations", "limit": r.below(14)});
-    let size = json!({"type": "solution_size", "limit": r.below(14)});
+    let iters = json!({"type": "iterations", "limit": if r.chance(0.05) { *r.pick(&[1u64 << 40, i64::MAX as u64]) } else { r.below(14) }});
+    let size = json!({"type": "solution_size", "limit": if r.chance(0.05) { *r.pick(&[1u64 << 40, i64::MAX as u64]) } else { r.below(14) }});
     if family == "ksp" {
         // two sub-searches per query (forward, reverse), each with a budget of its own; no scheduled
         // check other than the one at loop turn 0
@@ -194,6 +207,20 @@ fn gen(seed: u64, family: &str, tier: Tier) -> Case {
             }
             if r.chance(0.4) {
                 ms.push(size);
+            }
+            // the same kind of limit may be listed more than once (the tightest one counts; every runtime model
+            // keeps its own check schedule), and a limit may be astronomically large ("no limit")
+            if r.chance(0.3) {
+                let other_s = *r.pick(&[0u64, 1, 2, 3, 60]);
+                ms.push(json!({"type": "query_runtime", "limit": fmt_hms(other_s * 1_000_000_000), "frequency": *r.pick(&[1u64, 2, 3, 7, 100000])}));
+            }
+            if r.chance(0.2) {
+                let small = r.below(14);
+                ms.push(json!({"type": "iterations", "limit": *r.pick(&[small, 1 << 40, i64::MAX as u64])}));
+            }
+            if r.chance(0.2) {
+                let small = r.below(14);
+                ms.push(json!({"type": "solution_size", "limit": *r.pick(&[small, 1 << 40, i64::MAX as u64])}));
             }
             r.shuffle(&mut ms);
             // combined models may be nested (the builder supports it): wrap a prefix of the list once or twice
@@ -399,14 +426,19 @@ fn walk_from(ev: &[&ProbeEv], pos0: usize, lim: &Limits, exact: bool, size_may_f
     let mut i: u64 = 0;
     loop {
         let mut reasons: Vec<&'static str> = vec![];
-        if let Some((limit, f)) = lim.runtime {
+        // every runtime model that is due at this loop turn reads the clock, in evaluation order
+        let mut due_not_fired: Vec<(u64, u32)> = vec![];
+        for (limit, f, depth) in lim.runtimes.iter().copied() {
             if f != 0 && i % f == 0 {
-                // a check is scheduled at this loop turn
                 if pos < ev.len() && ev[pos].kind == K_MONO {
                     let v = ev[pos].clock;
                     pos += 1;
                     if v.saturating_sub(start) > limit {
-                        reasons.push("runtime");
+                        if !reasons.contains(&"runtime") {
+                            reasons.push("runtime");
+                        }
+                    } else {
+                        due_not_fired.push((limit, depth));
                     }
                 } else if exact {
                     // no clock read although a check is due: only legal when the search already ended at an
@@ -426,18 +458,19 @@ fn walk_from(ev: &[&ProbeEv], pos0: usize, lim: &Limits, exact: bool, size_may_f
             // the explanation re-evaluates every model: the runtime model reads the clock once more at a
             // scheduled turn, and if the budget is exhausted by then the error may name it as well
             // (a combined model evaluates it twice more: once for itself, once inside the runtime model)
-            if let Some((limit, f)) = lim.runtime {
-                if f != 0 && i % f == 0 && !reasons.contains(&"runtime") {
-                    let mut p2 = pos;
-                    let mut seen = 0;
-                    while p2 < ev.len() && ev[p2].kind == K_MONO && seen < (lim.runtime_depth + 1).max(2) {
-                        if ev[p2].clock.saturating_sub(start) > limit {
+            if !reasons.contains(&"runtime") && !due_not_fired.is_empty() {
+                let budget: usize = lim.runtimes.iter().map(|(_, _, d)| (*d as usize + 1).max(2)).sum::<usize>() * 2;
+                let mut p2 = pos;
+                let mut seen = 0;
+                'peek: while p2 < ev.len() && ev[p2].kind == K_MONO && seen < budget {
+                    for (limit, _) in &due_not_fired {
+                        if ev[p2].clock.saturating_sub(start) > *limit {
                             reasons.push("runtime?");
-                            break;
+                            break 'peek;
                         }
-                        p2 += 1;
-                        seen += 1;
                     }
+                    p2 += 1;
+                    seen += 1;
                 }
             }
             // nothing may be expanded once a limit fired
@@ -459,7 +492,7 @@ fn walk_from(ev: &[&ProbeEv], pos0: usize, lim: &Limits, exact: bool, size_may_f
             // count the loop turns by themselves: another monotonic read right here is the next turn's check,
             // so this turn popped a vertex that has no edge to expand (a dead end) - still a loop turn, still
             // counted against the iteration limit. Anything else is the end of the search.
-            let dense_clock = dense.is_some() && lim.runtime.map_or(false, |(_, f)| f == 1);
+            let dense_clock = dense.is_some() && lim.runtimes.iter().any(|(_, f, _)| *f == 1);
             if dense_clock && pos < ev.len() && ev[pos].kind == K_MONO {
                 if dense == Some(true) || ev[pos..].iter().any(|e| e.kind == PROBE_EXPAND) {
                     i += 1;
@@ -488,7 +521,7 @@ fn judge(case: &Case, obs: &Obs) -> (Vec<Violation>, BTreeMap<String, u64>, bool
     let mut lim = Limits::default();
     parse_limits(&case.world.termination, &mut lim);
     if let Some(e) = &obs.build_error {
-        if lim.runtime.map_or(false, |(_, f)| f == 0) {
+        if lim.runtimes.iter().any(|(_, f, _)| *f == 0) {
             bump("frequency_zero_rejected", 1);
             return (v, reach, false);
         }
